@@ -199,9 +199,16 @@ def chanOf (f : File) (n : Str) : Chan :=
   | some d => ⟨n, joinSp d.1.words, d.1.units, n = sUTIM ∨ n = sDATE ∨ n = sTIME⟩
   | none => ⟨n, [], [], false⟩
 
-/-- one channel per header name, in header order, each with its column of values (one per data line) -/
+/-- the first `k` columns of a row-major table -/
+def columns {α : Type} (dflt : α) : Nat → List (List α) → List (List α)
+  | 0, _ => []
+  | k + 1, rows => rows.map (fun r => r.headD dflt) :: columns dflt k (rows.map List.tail)
+
+/-- one channel per header name, in header order, each with its column of values (one per data line):
+the table of cell values, transposed -/
 def expected (f : File) : List (Chan × List Value) :=
-  (headerTokens f.sel).mapIdx fun i n => (chanOf f n, f.rows.map (fun r => (cellValues r.1).getD i (.float .nan)))
+  ((headerTokens f.sel).map (chanOf f)).zip
+    (columns (.float .nan) (headerTokens f.sel).length (f.rows.map (fun r => cellValues r.1)))
 
 /-! ### well-formedness of content and layout -/
 
